@@ -1,11 +1,60 @@
 import NsyncVerif.Props.C05Mu
-import NsyncVerif.Proofs.MuCQueueDefs
+import NsyncVerif.Proofs.MuCInv5Reach
+import NsyncVerif.Proofs.MuCRing
 /-!
 # C06 — conditional critical sections
 
 Model: `NsyncVerif.Model.MuC`.  See the header of `Props/C05Mu.lean` for the conventions.
 
-HEADER_PLACEHOLDER
+What is machine-checked here (all for `Reachable cfg s`, i.e. every program, interleaving, thread
+count, clock; both semaphore flavours)
+* `C06_cond_under_lock`  every accepted `cond` evaluation is made by a thread that owns a share of the
+                         mutex (own share inside mu_wait, or the writer bit — incl. the temporary
+                         writer lock of unlock_slow); no OTHER thread owns the writer bit, hence none is
+                         in a write critical section; the condition is the one the model prescribes
+                         (for unlock_slow: the head of `new_waiters` after the skips the same_condition
+                         rings allow) and the logged result is its value on the model's data.
+* `C06_inv_lock`, `C06_inv_spin`, `C06_inv_queue`
+                         the invariants (I_lock) (I_spin) (I_queue) re-proved for the extended model
+                         (conditions, timeouts, self-removal, unlock_without_wakeup, private lists of
+                         an unlocker that releases the spinlock while it evaluates).
+* `C06_hint_partial`     MU_CONDITION clear ⇒ no queued waiter (mu->waiters or an unlocker's private
+                         lists) has a condition.
+* `C06_samecond_ring_full_refuted`
+                         the "exactly the maximal runs" reading of the ring invariant is FALSE for the
+                         code (witness: harness execution `traceNotMaximal`); the direction the skip of
+                         unlock_slow needs is stated as `C06_samecond_ring_sound_full` (not proved).
+* `C06_samecond_ring_partial`
+                         given that ring invariant for the list being scanned, skip_past_same_condition
+                         passes only over waiters whose conditions denote the same predicate as the
+                         one just found false (pure fact about the transcription).
+* witnesses (`decide` on accepted traces of the real library): two eq-equivalent waiters woken by one
+  nsync_mu_unlock; the reader-mode timeout under a writer (the F6 path of mu_wait.c) with the fresh
+  reader acquiring, and the acceptor rejecting the store of the unfixed code; unlock_without_wakeup
+  leaving a false-condition waiter asleep on its MU_ALL_FALSE fast path.
+
+NOT proved (statements kept as `def …_full : Prop`):
+* `C06_hint_full` second half (MU_ALL_FALSE ⇒ every queued waiter has a false condition, when nobody
+  owns spinlock or writer bit and the contract of unlock_without_wakeup was kept).  Needs
+  `C06_samecond_ring_sound_full` (the skip is sound) and an invariant that carries "all false" through
+  write sections that end with unlock_without_wakeup and through mu_try_acquire_after_timeout_or_cancel.
+* `C06_samecond_ring_sound_full`, `C06_no_missed_cond_full`, `C06_no_stuck_state_full`,
+  `C06_without_wakeup_sound_full`.
+  For these the evidence is the correspondence check: ≥ 6000 harness executions of the families
+  `muwait` / `muc` accepted with zero REJECT, in which the acceptor recomputes every skip (it prescribes
+  WHICH condition is evaluated next) and the harness oracles `stuck`, `muwait-result`,
+  `cond-under-lock` never fired; the mutants (a)–(d) of the tie are rejected.
+
+Findings
+* WAIT_CONDITION_EQ is asymmetric (only its first argument's `eq` is consulted): rings are not maximal
+  runs (see above); harmless for correctness, costs evaluations.
+* skip_past_same_condition does not skip when the ring is the whole list (`last == p->prev`): the second
+  member is evaluated again (`traceEqPair`, events 32-33).
+* After a timed-out waiter has removed itself from the queue (mu_wait.c:100-109) MU_WAITING,
+  MU_CONDITION and MU_ALL_FALSE can stay set on a free mutex with an EMPTY queue (word 148 at the
+  end of `traceReaderTimeout`): "MU_WAITING indicates whether the waiter queue is non-empty"
+  (common.h:116) holds only in the direction queue non-empty ⇒ bit set.  Harmless: the next
+  nsync_mu_unlock takes the slow path, finds nothing and clears the bits.
 -/
 namespace NsyncVerif.MuC
 
@@ -525,13 +574,26 @@ theorem C06_samecond_ring_full_refuted : ¬ C06_samecond_ring_full := by
   · cases key
 
 /-- The direction the code guarantees (and the one the skip of unlock_slow needs): on every list of
-    waiters, two neighbours the model links into one ring have conditions that denote the same
-    predicate, so all members of a ring have the same truth value. -/
+    waiters (`Chain`, Proofs/MuCRing.lean) a record the model links to its successor has a condition
+    that denotes the same predicate as the successor's, and the last record is not linked — so all
+    members of a ring have the same truth value.  NOT proved as an invariant. -/
 def C06_samecond_ring_sound_full : Prop :=
   ∀ (cfg : Cfg) (s : State), Reachable cfg s →
-    ∀ (l : List Wid), (l = s.queue ∨ ∃ u sc, (s.pc u).scan? = some sc ∧ (l = sc.done ∨ l = sc.passed ++ sc.todo)) →
-    ∀ (pre post : List Wid) (a b : Wid), l = pre ++ a :: b :: post → (s.wr a).lnk = true →
-      ∃ ca cb, (s.wr a).cond = some ca ∧ (s.wr b).cond = some cb ∧ ca.sem = cb.sem
+    Chain s.wr s.queue ∧
+    ∀ u sc, (s.pc u).scan? = some sc → Chain s.wr sc.done ∧ Chain s.wr (sc.passed ++ sc.todo)
+
+/-- What IS proved about the rings: under the ring invariant of the list being scanned, the skip of
+    unlock_slow (mu.c:369-372, `skipPast`) passes only over waiters whose conditions denote the same
+    predicate as the condition just evaluated; if that was false on the current data, so are theirs.
+    (A fact about the transcription of skip_past_same_condition, for arbitrary record contents.) -/
+theorem C06_samecond_ring_partial {wr : Wid → WRec} {passed rest : List Wid} {k : Wid} {data : Nat → Int}
+    (hc : Chain wr (passed ++ k :: rest)) :
+    (∃ skipped, (skipPast wr passed k rest).1 = passed ++ k :: skipped ∧
+      skipped ++ (skipPast wr passed k rest).2 = rest ∧
+      ∀ x, x ∈ skipped → SameSem (wr k).cond (wr x).cond) ∧
+    (evalOpt data (wr k).cond = false →
+      ∀ x, x ∈ (skipPast wr passed k rest).1 → x ∉ passed → evalOpt data (wr x).cond = false) :=
+  ⟨skipPast_sound hc, skipPast_false hc⟩
 
 /-- Meaning of MU_CONDITION and MU_ALL_FALSE (common.h:118-134). -/
 def C06_hint_full : Prop :=
@@ -539,6 +601,55 @@ def C06_hint_full : Prop :=
     (s.word.cond = false → ∀ k, Queued s k → (s.wr k).cond = none) ∧
     (s.word.af = true → s.sp = none → s.wOwner = none → WithoutWakeupContract s →
       ∀ k, Queued s k → ∃ c, (s.wr k).cond = some c ∧ evalCond s.data c = false)
+
+/-- First half of `C06_hint_full`: MU_CONDITION clear ⇒ no waiter on mu->waiters or on the private
+    lists of an unlocker has a condition ("illegal to fail to set it with such a waiter"). -/
+theorem C06_hint_partial {cfg : Cfg} {s : State} (hr : Reachable cfg s) (hc : s.word.cond = false) :
+    ∀ k, Queued s k → (s.wr k).cond = none := by
+  intro k hk
+  cases hcd : (s.wr k).cond with
+  | none => rfl
+  | some c =>
+    have := (reachable_inv5 hr).h1 k hk (by rw [hcd]; simp)
+    rw [hc] at this; cases this
+
+/-! ## the invariants re-proved for the extended model (lock, spinlock, queue) -/
+
+/-- (I_lock) the lock bits of the word are exactly the shares the threads own; the client-visible
+    `held` is one of them; a writer is alone. -/
+theorem C06_inv_lock {cfg : Cfg} {s : State} (hr : Reachable cfg s) :
+    (∀ t, s.wOwner = some t ↔ shareOf s t = some .W) ∧ (∀ t, t ∈ s.rOwners ↔ shareOf s t = some .R) ∧
+    s.rOwners.Nodup ∧ s.word.wlock = s.wOwner.isSome ∧ s.word.readers = s.rOwners.length ∧
+    (s.word.wlock = true → s.word.readers = 0) ∧
+    (∀ t m, s.held t = some m → shareOf s t = some m ∧ s.pc t = .idle) ∧
+    (∀ t u, shareOf s t = some .W → shareOf s u ≠ none → u = t) := by
+  have inv := reachable_inv1 hr
+  refine ⟨inv.lock.wown, inv.lock.rown, inv.lock.nodup, inv.lock.wl, inv.lock.rd, inv.lock.excl, ?_, ?_⟩
+  · intro t m hm
+    exact ⟨by simp [shareOf, tshare, hm], inv.hidle t (by rw [hm]; simp)⟩
+  · intro t u ht hu; exact inv.lock.writer_alone ht hu
+
+/-- (I_spin) MU_SPINLOCK is set iff some thread owns it, and the owner is exactly the thread whose
+    program point lies in a region that holds it. -/
+theorem C06_inv_spin {cfg : Cfg} {s : State} (hr : Reachable cfg s) :
+    (∀ t, s.sp = some t ↔ (s.pc t).spin = true) ∧ s.word.spin = s.sp.isSome :=
+  ⟨(reachable_inv3 hr).own, (reachable_inv3 hr).bit⟩
+
+/-- (I_queue) waiter records are owned by the threads that refer to them; at most one thread is
+    between the grab CAS and the final CAS of unlock_slow; no record occurs twice on mu->waiters, the
+    private lists and the wake list; everything queued has `waiting` set, as have the waiters an
+    unlocker has removed and not yet released, which are on no list any more; wake lists of different
+    threads are disjoint; MU_WAITING etc. are cleared by the final CAS exactly when the queue is empty. -/
+theorem C06_inv_queue {cfg : Cfg} {s : State} (hr : Reachable cfg s) :
+    (∀ t k, k ∈ (s.pc t).ws → (s.wr k).owner = some t) ∧
+    (∀ t u, (s.pc t).unl = true → (s.pc u).unl = true → t = u) ∧
+    (∀ t, (s.queue ++ (s.pc t).priv ++ (s.pc t).wakeL).Nodup) ∧
+    (∀ k, Queued s k → (s.wr k).waiting = true) ∧
+    (∀ t k, k ∈ (s.pc t).wakeL → (s.wr k).waiting = true ∧ ¬ Queued s k) ∧
+    (∀ t u k, k ∈ (s.pc t).wakeL → k ∈ (s.pc u).wakeL → t = u) ∧
+    (∀ t f, (s.pc t).finOf = some f → f.cEmpty = s.queue.isEmpty) := by
+  have inv := reachable_inv4 hr
+  exact ⟨inv.own, inv.uniq, inv.nd, inv.wait, inv.wk, inv.wkd, inv.finq⟩
 
 /-- No waiter whose condition is true is left asleep when nobody is active. -/
 def C06_no_missed_cond_full : Prop :=
